@@ -114,15 +114,14 @@ Proof. intros p s S q. rewrite <- app_assoc. apply S. Qed.
 
 Lemma path_below_ok_safe : forall p, path_below_ok p = true -> safe_below p.
 Proof.
-  intros p H q. destruct p as [|a r]; [discriminate|]. simpl in H.
+  intros p H q. destruct p as [|a r]; [discriminate|]. unfold path_below_ok in H.
   destruct (is_pw ((a :: r) ++ q)) eqn:E; [|reflexivity]. exfalso.
   apply orb_prop in H. destruct H as [H|H].
   - apply is_pw_hd in E. simpl in E. rewrite E in H. discriminate.
   - apply andb_prop in H. destruct H as [H1 H2].
     destruct q as [|x q].
-    + rewrite app_nil_r in E. simpl in H2. rewrite E in H2. discriminate.
-    + apply is_pw_len in E. rewrite app_length in E. simpl in E.
-      destruct r as [|r1 [|r2 r]]; simpl in H1; try discriminate. simpl in E. lia.
+    + rewrite app_nil_r in E. rewrite E in H2. discriminate.
+    + apply is_pw_len in E. rewrite app_length in E. apply Nat.leb_le in H1. simpl in E, H1. lia.
 Qed.
 
 (* ------------------------------------------------------------------------------------------------ *)
@@ -219,9 +218,12 @@ Qed.
 Definition key_safe (k : rkind) (key : bytes) : Prop :=
   match k with
   | KExists | KUnknown => True
-  | KKeys | KScalar => is_pw (path_of key) = false
-  | KChildren | KSubtree => safe_below (path_of key)
+  | KKeys | KScalar => is_pw (key_path key) = false
+  | KChildren | KSubtree => safe_below (key_path key)
   end.
+
+Lemma key_path_dots : forall key, (0 < count_dots (lower key))%nat -> key_path key = path_of key.
+Proof. intros key H. destruct key; [unfold count_dots in H; simpl in H; lia|reflexivity]. Qed.
 
 Section Proofs.
   Variable to_string : value -> bytes.
@@ -232,9 +234,9 @@ Section Proofs.
     agree_except_passwords cfg cfg' -> key_safe k key ->
     read leaf_keys leaf_kids cfg k key = read leaf_keys leaf_kids cfg' k key.
   Proof.
-    intros cfg cfg' k key A S. unfold read, cfg_get.
-    pose proof (agree_lookup (path_of key) cfg cfg' [] A) as L. simpl in L.
-    destruct (lookup cfg (path_of key)) as [c|]; destruct (lookup cfg' (path_of key)) as [c'|];
+    intros cfg cfg' k key A S. unfold read.
+    pose proof (agree_lookup (key_path key) cfg cfg' [] A) as L. simpl in L.
+    destruct (lookup cfg (key_path key)) as [c|]; destruct (lookup cfg' (key_path key)) as [c'|];
       try contradiction; [|reflexivity].
     destruct k; simpl in S; try reflexivity.
     - (* keys *)
@@ -310,27 +312,31 @@ Section Proofs.
   (* ---------------------------------------------------------------------------------------------- *)
 
   Lemma first_seg_sound : forall ps env pat key,
-    first_seg_safe pat = true -> In key (inst to_string ps env pat) -> safe_below (path_of key).
+    first_seg_safe pat = true -> In key (inst to_string ps env pat) -> safe_below (key_path key).
   Proof.
-    intros ps env pat key F H q. unfold first_seg_safe in F. apply andb_prop in F. destruct F as [F1 F2].
+    intros ps env pat key F H q. unfold first_seg_safe in F. cbv zeta in F. apply andb_prop in F. destruct F as [F1 F2].
     apply Nat.ltb_lt in F1.
     destruct (inst_lead ps env pat key H) as (rest & E).
+    rewrite key_path_dots by (rewrite E, lower_app, count_dots_app; lia).
     destruct (is_pw (path_of key ++ q)) eqn:P; [|reflexivity]. exfalso.
     apply is_pw_hd in P. unfold path_of in P. rewrite E, lower_app in P.
     pose proof (split_dots_nonempty (lower (lead pat) ++ lower rest)) as N.
     destruct (split_dots (lower (lead pat) ++ lower rest)) as [|h t] eqn:S; [congruence|].
-    simpl in P.
-    pose proof (hd_split_app (lower (lead pat)) (lower rest) [] F1) as Hh. rewrite S in Hh. simpl in Hh.
-    rewrite <- Hh in F2. rewrite P in F2. discriminate.
+    change (hd [] ((h :: t) ++ q)) with h in P.
+    pose proof (hd_split_app (lower (lead pat)) (lower rest) [] F1) as Hh. rewrite S in Hh.
+    change (hd [] (h :: t)) with h in Hh.
+    change (negb (in_pw_section (hd [] (split_dots (lower (lead pat))))) = true) in F2.
+    unfold bytes in *. rewrite <- Hh in F2. rewrite P in F2. discriminate.
   Qed.
 
   Lemma last_seg_sound : forall ps env pat key,
-    last_seg_safe pat = true -> In key (inst to_string ps env pat) -> is_pw (path_of key) = false.
+    last_seg_safe pat = true -> In key (inst to_string ps env pat) -> is_pw (key_path key) = false.
   Proof.
     intros ps env pat key F H. unfold last_seg_safe in F.
     destruct (last pat (PUnknown EmptyString)) as [s| | | |] eqn:L; try discriminate.
     apply andb_prop in F. destruct F as [F1 F2]. apply Nat.ltb_lt in F1.
     destruct (inst_suffix ps env pat s key L H) as (pre & E).
+    rewrite key_path_dots by (rewrite E, lower_app, count_dots_app; lia).
     destruct (is_pw (path_of key)) eqn:P; [|reflexivity]. exfalso.
     apply is_pw_last in P. unfold path_of in P. rewrite E, lower_app in P.
     rewrite (last_split_app (lower pre) (lower (bytes_of_string s)) [] F1) in P.
@@ -339,17 +345,19 @@ Section Proofs.
 
   Lemma last_seg_below_sound : forall ps env pat key,
     last_seg_safe pat = true -> (2 <= fixed_dots pat)%nat -> In key (inst to_string ps env pat) ->
-    safe_below (path_of key).
+    safe_below (key_path key).
   Proof.
     intros ps env pat key F D H q.
     destruct q as [|x q]; [rewrite app_nil_r; eapply last_seg_sound; eauto|].
+    pose proof (inst_dots ps env pat key H) as ID.
+    rewrite key_path_dots by lia.
     destruct (is_pw (path_of key ++ x :: q)) eqn:P; [|reflexivity]. exfalso.
     apply is_pw_len in P. rewrite app_length in P. unfold path_of in P. rewrite split_dots_length in P.
-    pose proof (inst_dots ps env pat key H). simpl in P. lia.
+    simpl in P. lia.
   Qed.
 
   Lemma exact_ok_sound : forall ps env pat key,
-    exact_ok pat = true -> In key (inst to_string ps env pat) -> is_pw (path_of key) = false.
+    exact_ok pat = true -> In key (inst to_string ps env pat) -> is_pw (key_path key) = false.
   Proof.
     intros ps env pat key O H. unfold exact_ok in O.
     destruct (forallb is_fix pat) eqn:F.
@@ -361,7 +369,7 @@ Section Proofs.
   Qed.
 
   Lemma below_ok_sound : forall ps env pat key,
-    below_ok pat = true -> In key (inst to_string ps env pat) -> safe_below (path_of key).
+    below_ok pat = true -> In key (inst to_string ps env pat) -> safe_below (key_path key).
   Proof.
     intros ps env pat key O H. unfold below_ok in O.
     destruct (forallb is_fix pat) eqn:F.
